@@ -130,6 +130,9 @@ func c19Config(slot int) ref.Config {
 	cfg.Repo = &ref.Repo{LastAdd: 100, LastErase: 50, Recs: []ref.SDRRec{
 		{ID: uint16(1 + slot), Data: fsrBytes(uint16(1+slot), byte(slot), fmt.Sprintf("T%d", slot))},
 		{ID: uint16(0x100 + slot), Data: fsrBytes(uint16(0x100+slot), byte(slot+1), fmt.Sprintf("Inlet%d", slot))},
+		// names in the two packed encodings, different for every BMC
+		{ID: uint16(0x200 + slot), Data: fsrBytesPacked(uint16(0x200+slot), byte(slot+2), 1, pattern(9+slot%3, byte(slot), 3))},
+		{ID: uint16(0x300 + slot), Data: fsrBytesPacked(uint16(0x300+slot), byte(slot+3), 2, pattern(7+slot%4, byte(0x21+slot*5), 7))},
 	}}
 	return cfg
 }
@@ -184,7 +187,7 @@ func (th *c19Thread) run(slot, workload int) {
 	case 3:
 		repo, err := bmc.RetrieveSDRRepository(w.Ctx, th.sess)
 		fmt.Fprintf(o, "sdr err=%v n=%d;", err, len(repo))
-		for _, id := range []int{1 + slot, 0x100 + slot} {
+		for _, id := range []int{1 + slot, 0x100 + slot, 0x200 + slot, 0x300 + slot} {
 			if r, ok := repo[ipmi.RecordID(id)]; ok {
 				fmt.Fprintf(o, "%#x=%s/%d/%v;", id, r.Identity, r.Number, r.ConversionFactors)
 			}
